@@ -629,4 +629,186 @@ theorem prod_kept_lens (sels : List (List Nat × Bool)) (h : ∀ p ∈ sels, p.2
     rw [← h2, he]; rfl
   · exact h2
 
+theorem truePos_lt (bits : List Bool) : ∀ x ∈ truePos bits, x < bits.length := by
+  intro x hx
+  unfold truePos at hx
+  obtain ⟨p, hp, hx⟩ := List.mem_filterMap.1 hx
+  have := List.mem_zipIdx_iff_getElem?.1 hp
+  have hl := (List.getElem?_eq_some_iff.1 this).1
+  split at hx
+  · cases hx; exact hl
+  · cases hx
+
+/-- getitem of a well-formed array: a well-formed array, or an `index` / `value` error — never `internal` -/
+theorem getitem_total {A : NDArray α} (hw : A.WF) (k : Key) :
+    (∃ B, getitem k A = .ok B ∧ B.WF) ∨ getitem k A = .error .index ∨ getitem k A = .error .value := by
+  cases k with
+  | tuple items =>
+    simp only [getitem]
+    cases hs : selections A.shape items with
+    | error e =>
+      right
+      rcases selections_error hs with rfl | rfl
+      · left; rfl
+      · right; rfl
+    | ok sels =>
+      left
+      obtain ⟨h1, h2, h3⟩ := selections_ok hs
+      obtain ⟨B, hB, hBw⟩ := gatherList_ok hw (atleast1 ((sels.filter (·.2)).map (·.1.length)))
+        (cart (sels.map (·.1)))
+        (by
+          intro i hi
+          refine valid_of_mem_cart (by simpa using h1) ?_ hi
+          intro a ha hsa x hx
+          simp only [List.length_map] at ha
+          simp only [List.getElem_map] at hx
+          exact h2 a ha hsa x hx)
+        (by rw [length_cart, prod_kept_lens sels h3])
+      exact ⟨B, by simp [bind, Except.bind, hB, ofOpt], hBw⟩
+  | mask msh bits =>
+    simp only [getitem]
+    by_cases hc : msh = [] ∨ msh ≠ A.shape.take msh.length ∨ bits.length ≠ prod msh
+    · right; left; rw [if_pos hc]
+    · left
+      rw [if_neg hc]
+      simp only [not_or, not_not] at hc
+      obtain ⟨_, hm, hb⟩ := hc
+      have hVw : (⟨prod msh :: A.shape.drop msh.length, A.data⟩ : NDArray α).WF := by
+        show A.data.length = prod (prod msh :: A.shape.drop msh.length)
+        rw [hw]
+        conv_lhs => rw [← List.take_append_drop msh.length A.shape, prod_append, ← hm]
+        rfl
+      obtain ⟨B, hB, hBw⟩ := gatherList_ok hVw ((truePos bits).length :: A.shape.drop msh.length)
+        (cart (truePos bits :: (A.shape.drop msh.length).map List.range))
+        (by
+          intro i hi
+          refine valid_of_mem_cart (by simp) ?_ hi
+          intro a ha hsa x hx
+          cases a with
+          | zero =>
+            simp only [List.getElem_cons_zero] at hx ⊢
+            rw [← hb]; exact truePos_lt bits x hx
+          | succ a =>
+            simp only [List.getElem_cons_succ, List.getElem_map, List.mem_range] at hx ⊢
+            exact hx)
+        (by rw [length_cart]; simp only [List.map_cons, prod, map_length_range])
+      exact ⟨B, by rw [hB]; rfl, hBw⟩
+
+theorem length_flatMap_uniform {γ δ : Type} (l : List γ) (f : γ → List δ) (m : Nat)
+    (h : ∀ x ∈ l, (f x).length = m) : (l.flatMap f).length = l.length * m := by
+  induction l with
+  | nil => simp
+  | cons x xs ih =>
+    rw [List.flatMap_cons, List.length_append, h x (List.mem_cons_self ..),
+      ih (fun y hy => h y (List.mem_cons_of_mem _ hy)), List.length_cons]
+    ring
+
+/-- stack of well-formed arrays: a well-formed array or a `value` error -/
+theorem stack_total {As : List (NDArray α)} (hw : ∀ B ∈ As, B.WF) :
+    (∃ B, stack As = .ok B ∧ B.WF) ∨ stack As = .error .value := by
+  cases As with
+  | nil => right; rfl
+  | cons A rest =>
+    simp only [stack]
+    by_cases hall : (rest.all fun B => B.shape == A.shape) = true
+    · left
+      rw [if_pos hall]
+      have hshape : ∀ D ∈ A :: rest, D.shape = A.shape := by
+        intro D hD
+        rcases List.mem_cons.1 hD with rfl | hD
+        · rfl
+        · simpa using (List.all_eq_true.1 hall) D hD
+      have hsome : ∀ x ∈ (List.range (prod A.shape)).flatMap (fun j => (A :: rest).map (fun B => B.data[j]?)),
+          x.isSome = true := by
+        intro x hx
+        obtain ⟨j, hj, hx⟩ := List.mem_flatMap.1 hx
+        obtain ⟨D, hD, rfl⟩ := List.mem_map.1 hx
+        have : j < D.data.length := by rw [hw D hD, hshape D hD]; exact List.mem_range.1 hj
+        simp [List.getElem?_eq_getElem this]
+      obtain ⟨d, hd⟩ := optAll_some_of_all hsome
+      refine ⟨⟨A.shape ++ [(A :: rest).length], d⟩, by rw [hd]; rfl, ?_⟩
+      show d.length = prod (A.shape ++ [(A :: rest).length])
+      have h2 := congrArg List.length (optAll_eq_some.1 hd)
+      rw [List.length_map, length_flatMap_uniform _ _ (A :: rest).length (fun x _ => by simp),
+        List.length_range] at h2
+      rw [prod_append, ← h2]
+      simp [prod]
+    · right; rw [if_neg hall]
+
+/-! ### the two readings of negative axes never both succeed with different results -/
+
+theorem sum_norm_axes (ax : List Int) (m : Int) :
+    (ax.map (fun a => if a < 0 then a + (m + 1) else a)).sum =
+      (ax.map (fun a => if a < 0 then a + m else a)).sum + (ax.filter (fun a => decide (a < 0))).length := by
+  induction ax with
+  | nil => simp
+  | cons a r ih =>
+    by_cases ha : a < 0
+    · simp only [List.map_cons, List.sum_cons, ha, if_true, ih, List.filter_cons, decide_true,
+        List.length_cons]
+      push_cast; ring
+    · simp only [List.map_cons, List.sum_cons, ha, if_false, ih, List.filter_cons, decide_false]
+      simp only [Bool.false_eq_true, if_false]
+      ring
+
+theorem sum_toNat (l : List Int) (h : ∀ a ∈ l, 0 ≤ a) : ((l.map Int.toNat).sum : Int) = l.sum := by
+  induction l with
+  | nil => simp
+  | cons a r ih =>
+    have ha := h a (List.mem_cons_self ..)
+    simp only [List.map_cons, List.sum_cons, Nat.cast_add, ih (fun x hx => h x (List.mem_cons_of_mem _ hx))]
+    rw [Int.toNat_of_nonneg ha]
+
+theorem normAxes_agree {nd : Nat} {ax : List Int} {p1 p0 : List Nat} (hl : ax.length = nd)
+    (h1 : normAxes nd 1 ax = .ok p1) (h0 : normAxes nd 0 ax = .ok p0) : p1 = p0 := by
+  have hp1 := normAxes_isPerm hl h1
+  have hp0 := normAxes_isPerm hl h0
+  have hs : p1.sum = p0.sum := by rw [hp1.perm.sum_eq, hp0.perm.sum_eq]
+  -- unfold both
+  unfold normAxes at h1 h0
+  simp only at h1 h0
+  split at h1
+  · rename_i hall1
+    split at h1
+    · split at h0
+      · rename_i hall0
+        split at h0
+        · cases h1; cases h0
+          have e1 : ((ax.map (fun a => if a < 0 then a + ((nd + 1 : Nat) : Int) else a)).map Int.toNat).sum
+              = ((ax.map (fun a => if a < 0 then a + ((nd + 0 : Nat) : Int) else a)).map Int.toNat).sum := hs
+          have c1 := sum_toNat (ax.map (fun a => if a < 0 then a + ((nd + 1 : Nat) : Int) else a)) (by
+            intro a ha
+            have := (List.all_eq_true.1 hall1) a ha
+            simp only [Bool.and_eq_true, decide_eq_true_eq] at this
+            exact this.1)
+          have c0 := sum_toNat (ax.map (fun a => if a < 0 then a + ((nd + 0 : Nat) : Int) else a)) (by
+            intro a ha
+            have := (List.all_eq_true.1 hall0) a ha
+            simp only [Bool.and_eq_true, decide_eq_true_eq] at this
+            exact this.1)
+          have hsum := sum_norm_axes ax (nd : Int)
+          have e2 : (((nd + 1 : Nat) : Int)) = (nd : Int) + 1 := by push_cast; ring
+          have e3 : (((nd + 0 : Nat) : Int)) = (nd : Int) := by simp
+          rw [e2] at c1 e1
+          rw [e3] at c0 e1
+          have hz : ((ax.filter (fun a => decide (a < 0))).length : Int) = 0 := by
+            have : ((((ax.map (fun a => if a < 0 then a + ((nd : Int) + 1) else a)).map Int.toNat).sum : Nat) : Int)
+                = (((ax.map (fun a => if a < 0 then a + (nd : Int) else a)).map Int.toNat).sum : Nat) := by
+              exact_mod_cast e1
+            rw [c1, c0, hsum] at this
+            omega
+          have hnn : ∀ a ∈ ax, ¬ a < 0 := by
+            intro a ha hneg
+            have : a ∈ ax.filter (fun a => decide (a < 0)) := List.mem_filter.2 ⟨ha, by simpa using hneg⟩
+            have hpos : 0 < (ax.filter (fun a => decide (a < 0))).length := List.length_pos_of_mem this
+            omega
+          congr 1
+          apply List.map_congr_left
+          intro a ha
+          simp [hnn a ha]
+        · cases h0
+      · cases h0
+    · cases h1
+  · cases h1
+
 end Orix.NDArray
